@@ -1299,7 +1299,7 @@ func toString(v interface{}) string {
 		if rv := reflect.ValueOf(val); rv.Kind() == reflect.Ptr && rv.IsNil() {
 			return ""
 		}
-		return val.String()
+		return stringerText(val)
 	}
 
 	return fmt.Sprintf("%v", v)
